@@ -94,6 +94,16 @@ def main():
         cases.append({"op": "resolve", "s": s})
     r = parse_worker({"cases": cases})
     res = r["results"]
+    # late registration: texts that resolve through a prefix split, later declared as exact symbols (separate process: it registers units)
+    late = [{"op": "late_symbol", "text": t, "dim": d, "name": f"vf late {i}"} for i, (t, d) in enumerate(
+        [(ps + us, d) for ps, us, d in (("G", "m", "length"), ("k", "t", "speed"), ("m", "K", "time"), ("M", "s", "mass"), ("μ", "g", "length")) if ps + us not in symbols])]
+    for cs, x in zip(late, parse_worker({"cases": late})["results"]):
+        c.count(cs, nontrivial=True)
+        if "err" in x:
+            c.violation(f"late-symbol-raises:{x['err']}", f"registering {cs['text']!r} as a new unit's symbol after it had been parsed: {x.get('msg')}", {"case": cs, "outcome": x})
+        elif not (x["same"] and x["quantity_same_unit"]):
+            c.violation("stale-symbol", f"{cs['text']!r} was parsed (prefix + symbol), then declared as the symbol of a new unit; str(new unit) is {x['str_new']!r} but parsing it "
+                                        "does not return the new unit", {"case": cs, "outcome": x})
     # ---------------- Coq: the tables, the collision sweep, model = implementation
     td = tables_coq(T)
     known_coll = sorted(k["key"][len("collision:"):] for k in c.known if k["key"].startswith("collision:"))
